@@ -116,12 +116,14 @@ func (p *P) Get(ctx context.Context, key string) (Conn, error) {
 		delete(p.keys, key)
 		close(bucket.c)
 
-		// Close might take some time, unlock early.
-		p.keysLock.Unlock()
-
+		// Empty the bucket before the lock is released: a concurrent Get that
+		// still holds a reference to it must not be able to take a connection
+		// out of it after Close() of the pool has returned. Close might take
+		// some time, run in parallel.
 		for conn := range bucket.c {
-			conn.Close()
+			go conn.Close()
 		}
+		p.keysLock.Unlock()
 
 		return p.cfg.New(ctx, key)
 	}
